@@ -51,12 +51,16 @@ class World:
         class S12(S1, S2):
             _discriminator_ = 4
 
+        class S3(Base):
+            _discriminator_ = 5
+            z = Optional(int)
+
         class R(db.Entity):
             _table_ = 'tr'
             id = PrimaryKey(int)
             b = Optional(Base, column='b_id')
 
-        self.cls = {'Base': Base, 'S1': S1, 'S2': S2, 'S12': S12}
+        self.cls = {'Base': Base, 'S1': S1, 'S2': S2, 'S12': S12, 'S3': S3}
         self.R = R
         db.bind('sqlite', path, create_db=True)
         db.generate_mapping(create_tables=True)
@@ -72,7 +76,7 @@ class World:
         con = sqlite3.connect(self.path)
         rows = dict(con.execute('SELECT id, kind FROM tbase'))
         con.close()
-        names = {1: 'Base', 2: 'S1', 3: 'S2', 4: 'S12'}
+        names = {1: 'Base', 2: 'S1', 3: 'S2', 4: 'S12', 5: 'S3'}
         return {k: names.get(v, '?%r' % v) for k, v in rows.items()}
 
 
@@ -107,7 +111,8 @@ def execute(w, st, ev, rng):
             form = rng.randrange(3)
             items = C.select()[:] if form == 0 else select(x for x in C)[:] if form == 1 else list(C.select(lambda x: True))
         else:
-            items = select(x for x in Base if isinstance(x, C))[:]
+            D = w.cls[['Base', 'S1', 'S2', 'S12', 'S3'][k - 1]]
+            items = select(x for x in C if isinstance(x, D))[:]
         ids = set()
         for o in items:
             name = check_obj(w, st, o)
